@@ -73,3 +73,29 @@ PROPS["C15"] = dict(
                 quick=dict(workers=16, checks=6000, steps=30, watchdog_s=900),
                 thorough=dict(workers=16, checks=400000, steps=30, watchdog_s=7200, max_clients=64))],
 )
+
+PROPS["C03"] = dict(
+    level="exploration",
+    engine="hist+medium",
+    technique="deterministic simulation: seeded call histories on one csproto.Decoder over a writer-produced message damaged by a faulty medium; spec-derived item-length model, poisoned-tail twin run, allocation metering; plus exhaustive enumeration of truncations and bit flips of seed messages",
+    design_ref="DESIGN.md 4.1, 4.4, 5 (C03)",
+    level_text=("Seeded search over call sequences (all Decode*, DecodePacked*, DecodeNested, Skip, Seek, Reset, SetMode) starting at drawn offsets of buffers that a "
+                "medium truncated, bit-flipped or whose length prefixes it inflated; after every call: no panic, cursor in [0,len], on success the cursor advanced by "
+                "exactly the item length a spec-derived model computes, over-long declared lengths are errors (and the nested decoder is not invoked), heap allocation "
+                "stays linear in the input, and a twin run whose memory beyond len(input) is filled differently gives identical results. The quick tier additionally "
+                "enumerates every truncation offset and every single-bit flip of a fixed seed set for every method at every field start (exhaustive for that set)."),
+    level_note="Trusted: the harness' writer and item-length model (written from the encoding spec, no csproto code), runtime/metrics allocation counter, rapid.",
+    needs=[],
+    rule=("one execution = one damaged (or alphabet-drawn) buffer, a drawn start offset and mode, and a drawn history of decoder calls executed on two twins that differ only "
+          "in the bytes beyond len(input); non-trivial = at least one call consumed an item successfully and at least one call returned an error or reached the damaged byte; "
+          "distinct = hash of input bytes and call sequence"),
+    real=["every method of csproto.Decoder (decoder.go)"],
+    model=["spec-derived item-length model (oracle)", "medium: truncate / bit flip / inflate or deflate a length prefix, poisoned tail", "recording stub Unmarshaler for DecodeNested"],
+    assumptions=["value correctness of successfully decoded items is not judged (C01/C02, not claimed); only totality, cursor accounting, bounds and allocation"],
+    tests=[dict(name="TestC03Hist", pkg="c03", race=False, mem_gb=40,
+                quick=dict(workers=16, checks=100000, steps=25, watchdog_s=900),
+                thorough=dict(workers=16, checks=2500000, steps=30, watchdog_s=7200)),
+           dict(name="TestC03Enum", pkg="c03", race=False, mem_gb=40,
+                quick=dict(workers=16, watchdog_s=900),
+                thorough=dict(workers=16, watchdog_s=900))],
+)
